@@ -357,6 +357,15 @@ def c025(ctx):
         allrm = P.call_points(f, r"std::fs::(remove_file|rename|remove_dir|remove_dir_all)$")
         ctx.check(R, f, "retire-sites", set(allrm) == set(rm) | set(rn), "the only file removals/moves are tmp-sst removal and log->trash",
                   "unexpected remove/rename site in the flush thread")
+        # the tmp SST and the log are retired only when the ingest returned Ok: a failed ingest leaves no manifest edit naming
+        # the batches, so the log must stay in the root for recovery to replay
+        for what, pts in (("remove_file(tmp sst)", rm), ("rename(log->trash)", rn)):
+            for pt in pts:
+                g = K.guarded_by_call(f, pt, TREE + "_ingest$", label="sw:0")
+                ctx.check(R, f, "retire-on-ingest-ok:" + what.split("(")[0], bool(g),
+                          "%s is dominated by the Ok edge of LsmTree::_ingest" % what,
+                          "%s is reachable when LsmTree::_ingest returned an error: the log leaves the root with nothing durable naming its data" % what,
+                          pt=pt)
         # the ingested path is the sealed builder's path
         for pt in ig:
             ctx.check(R, f, "ingest-path", any(c.endswith("lsmtk::TEMP_FILE") for c in K.arg_calls(f, pt, 1)),
